@@ -93,19 +93,28 @@ def make_store_transport(suds, rec):
     import suds.transport
 
     class Store(suds.store.DocumentStore):
+        """The documents are registered under their locations (the URL after
+        "://", query string and fragment included) and found by
+        DocumentStore's own lookup."""
+
+        def __init__(self):
+            suds.store.DocumentStore.__init__(
+                self, dict((u.split("://", 1)[1], rec.docs[u]) for u in rec.in_store if u in rec.docs))
+
         def open(self, url):
             url = str(url)
             rec._note("S", url)
             k = rec.nfetch
             rec.nfetch += 1
             rec.current_faulted = rec.fault is not None and rec.fault[0] == k
-            held = url in rec.in_store and url in rec.docs
-            if not held:
-                if url.startswith("suds://"):
-                    rec.failed = True
-                    if rec.current_faulted:
-                        rec.fired = True
-                    raise Exception('location "%s" not in document store' % url)
+            try:
+                content = suds.store.DocumentStore.open(self, url)
+            except Exception:       # noqa -- "suds://" location the store does not hold
+                rec.failed = True
+                if rec.current_faulted:
+                    rec.fired = True
+                raise
+            if content is None:
                 return None
             if rec.current_faulted:
                 rec.fired = True
@@ -113,7 +122,7 @@ def make_store_transport(suds, rec):
                 if rec.fault[1] == "raise":
                     raise suds.transport.TransportError("injected store failure", 503)
                 return Recorder.GARBAGE
-            return rec.docs[url]
+            return content
 
     class Transport(suds.transport.Transport):
         def open(self, request):
@@ -344,6 +353,23 @@ def gen_iface(rng, max_blocks=4):
         bi.types.append((leaf, [("v", ("b", rng.choice(BUILTINS)))]))
         bj.types[0][1].append(("back", ("t", bi.bid, leaf)))
         bj.deps.add(i)
+    # an element with the name of a type (separate symbol spaces), declared in the type's
+    # block or in another block of the same namespace (then in another document as often as
+    # not); sometimes the type's block also needs the element's block (both merge orders)
+    for blk in list(I.blocks):
+        if rng.random() < 0.5:
+            tname = blk.types[0][0]
+            mates = [b for b in I.blocks if b.ns == blk.ns]
+            home = rng.choice(mates)
+            home.elems.append((tname, None, ("t", blk.bid, tname)))
+            if home.bid != blk.bid:
+                home.deps.add(blk.bid)
+                if rng.random() < 0.5:
+                    leaf = "L%d" % home.bid
+                    if not any(t[0] == leaf for t in home.types):
+                        home.types.append((leaf, [("v", ("b", rng.choice(BUILTINS)))]))
+                    blk.types[-1][1].append(("twin", ("t", home.bid, leaf)))
+                    blk.deps.add(home.bid)
     nops = rng.randrange(1, 3)
     for o in range(nops):
         pair = []
@@ -355,7 +381,7 @@ def gen_iface(rng, max_blocks=4):
                 t = tref(blk, allow)
                 fields.append(("p%d" % f, t))
             ename = "op%d%s" % (o, suffix)
-            blk.elems.append((ename, fields))
+            blk.elems.append((ename, fields, None))
             pair.append((blk.bid, ename))
         I.ops.append(("op%d" % o, pair[0], pair[1]))
     return I
@@ -385,9 +411,12 @@ def render_block(I, blk):
     for name, fields in blk.types:
         out.append('<xsd:complexType name="%s"><xsd:sequence>%s</xsd:sequence></xsd:complexType>'
                    % (name, render_fields(I, fields)))
-    for name, fields in blk.elems:
-        out.append('<xsd:element name="%s"><xsd:complexType><xsd:sequence>%s</xsd:sequence>'
-                   '</xsd:complexType></xsd:element>' % (name, render_fields(I, fields)))
+    for e in blk.elems:
+        if e[1] is None:         # element of a named type
+            out.append('<xsd:element name="%s" type="s%d:%s"/>' % (e[0], I.blocks[e[2][1]].ns, e[2][2]))
+        else:
+            out.append('<xsd:element name="%s"><xsd:complexType><xsd:sequence>%s</xsd:sequence>'
+                       '</xsd:complexType></xsd:element>' % (e[0], render_fields(I, e[1])))
     return "".join(out)
 
 
@@ -489,18 +518,49 @@ def single_document(I):
     return d.render(ns_decls(I))
 
 
+def _split_tail(u):
+    """(path, "?query#fragment" tail) of a URL or path."""
+    for i, c in enumerate(u):
+        if c in "?#":
+            return u[:i], u[i:]
+    return u, ""
+
+
 def location(rng, src, dst, style):
-    """How `src` spells a reference to `dst`."""
+    """How `src` spells a reference to `dst` (both may carry a query string
+    and a fragment)."""
     if style == "abs" or not dst.startswith(HOST) or not src.startswith(HOST):
         return dst
-    sp = src[len(HOST):]
-    dp = dst[len(HOST):]
+    sp, _ = _split_tail(src[len(HOST):])
+    dp, dt = _split_tail(dst[len(HOST):])
     if style == "rootrel":
-        return dp
+        return dp + dt
+    if sp == dp and dt.startswith("?"):
+        return dt                           # same path: "?xsd=1"
     rel = posixpath.relpath(dp, posixpath.dirname(sp))
     if style == "dotrel" and not rel.startswith("."):
         rel = "./" + rel
-    return rel
+    return rel + dt
+
+
+def query_url(rng, d, ext, k):
+    """Document k of a service that publishes its documents as
+    .../svc?wsdl, .../svc?wsdl=2, .../svc?xsd=3 (some with a fragment)."""
+    q = ext if k == 0 else "%s=%d" % (ext, k)
+    frag = "#r%d" % k if ext == "xsd" and rng.random() < 0.3 else ""
+    return HOST + d + "svc?" + q + frag
+
+
+def add_decoys(rng, L):
+    """The query-less location of every .../svc?x document, holding another
+    (unreferenced, hence unreachable) document."""
+    for u in sorted(L.docs):
+        base, tail = _split_tail(u)
+        if tail and base not in L.docs:
+            L.docs[base] = ('<?xml version="1.0" encoding="UTF-8"?>\n<xsd:schema xmlns:xsd="%s" '
+                            'targetNamespace="urn:c12:decoy"><xsd:element name="decoy" type="xsd:string"/>'
+                            '</xsd:schema>' % XSD).encode("utf-8")
+            L.in_store.add(base)
 
 
 # ---------------------------------------------------------------------------
@@ -586,7 +646,7 @@ def w_cycle(kinds, edges):
     return any(reach(i, i, set()) for i in adj)
 
 
-def build_graph_layout(rng, kinds, edges, order="safe", style=None, dirs=None, store_p=0.3):
+def build_graph_layout(rng, kinds, edges, order="safe", style=None, dirs=None, store_p=0.3, urlstyle="plain"):
     """Render a document graph.  Every document i declares type G<i> and
     element e<i> in namespace g<group(i)>; document 0 is the root WSDL with
     the service.  order: 'safe' = wsdl:import of schema documents first,
@@ -597,7 +657,10 @@ def build_graph_layout(rng, kinds, edges, order="safe", style=None, dirs=None, s
     ext = {"W": "wsdl", "X": "xsd"}
     if dirs is None:
         dirs = ["/g/"] * n
-    urls = [HOST + dirs[i] + "d%d.%s" % (i, ext[kinds[i]]) for i in range(n)]
+    if urlstyle == "query":
+        urls = [query_url(rng, dirs[i], ext[kinds[i]], i) for i in range(n)]
+    else:
+        urls = [HOST + dirs[i] + "d%d.%s" % (i, ext[kinds[i]]) for i in range(n)]
     # include edges put documents into one namespace
     grp = list(range(n))
 
@@ -614,9 +677,11 @@ def build_graph_layout(rng, kinds, edges, order="safe", style=None, dirs=None, s
     nsdecl = " ".join('xmlns:g%d="urn:c12:g%d"' % (i, i) for i in range(n))
 
     def decls(i):
+        # the element G<i> has the name of its type (separate symbol spaces)
         return ('<xsd:complexType name="G%d"><xsd:sequence><xsd:element name="v" type="xsd:%s"/>'
                 '</xsd:sequence></xsd:complexType><xsd:element name="e%d" type="g%d:G%d"/>'
-                % (i, BUILTINS[i % len(BUILTINS)], i, find(i), i))
+                '<xsd:element name="G%d" type="g%d:G%d"/>'
+                % (i, BUILTINS[i % len(BUILTINS)], i, find(i), i, i, find(i), i))
 
     def loc(i, j):
         st = style if style != "mixed" else rng.choice(["abs", "rel", "dotrel", "rootrel"])
@@ -681,15 +746,18 @@ def build_graph_layout(rng, kinds, edges, order="safe", style=None, dirs=None, s
     d.body = [ops_xml, pt_xml(ops), bind_xml(ops), SVC_XML]
     L.single = d.render(nsdecl)
     for u in urls:
-        if rng.random() < store_p:
+        if rng.random() < (0.7 if urlstyle == "query" else store_p):
             L.in_store.add(u)
+    if urlstyle == "query":
+        add_decoys(rng, L)
     if w_cycle(kinds, edges):
         L.quirks.add(KEY_CYCLE_INLINE)
     if foreign:
         L.quirks.add(KEY_FOREIGN)
     if len(set(dirs)) > 1:
         L.quirks.add(KEY_RELBASE)
-    L.desc = "graph kinds=%s edges=%s order=%s style=%s" % (
+    L.desc = "graph%s kinds=%s edges=%s order=%s style=%s" % (
+        " (query-string URLs)" if urlstyle == "query" else "",
         "".join(kinds), ",".join("%d%s%d" % (i, {"wimp": "W", "ximp": "I", "xinc": "C"}[k], j) for (i, j), k in sorted(edges.items())), order, style)
     L.shape = {"n": n, "kinds": "".join(kinds), "edges": len(edges), "cycle": w_cycle(kinds, edges)}
     return L
@@ -758,12 +826,15 @@ def gen_partition(rng, I, max_docs=6):
     style = rng.choice(["abs", "rel", "mixed", "mixed"])
     nsdecl = ns_decls(I)
     one_dir = rng.random() < 0.4
+    qstyle = rng.random() < 0.25
     counter = [0]
 
     def new_url(ext):
         k = counter[0]
         counter[0] += 1
         d = DIRS[0] if one_dir else rng.choice(DIRS)
+        if qstyle:
+            return query_url(rng, d, ext, k)
         return HOST + d + "p%d.%s" % (k, ext)
 
     # --- WSDL chain
@@ -1043,14 +1114,18 @@ def gen_partition(rng, I, max_docs=6):
     if shadowed({u: parse_doc(d) for u, d in L.docs.items()}):
         return None
     L.single = single_document(I)
-    p = rng.choice([0.0, 0.3, 0.3, 1.0])
+    p = rng.choice([0.5, 1.0]) if qstyle else rng.choice([0.0, 0.3, 0.3, 1.0])
     for u in L.docs:
         if rng.random() < p:
             L.in_store.add(u)
+    if qstyle:
+        add_decoys(rng, L)
+        L.shape["query_urls"] = True
     L.shape.update({"n": len(L.docs), "wdocs": len(wdocs), "xdocs": len(xdocs), "style": style,
                     "holder": holder is not None, "one_dir": one_dir,
                     "wimp_x": sum(len(v) for v in wimp_x.values())})
-    L.desc = "partition %d docs (%d wsdl, %d xsd) style=%s" % (len(L.docs), len(wdocs), len(xdocs), style)
+    L.desc = "partition %d docs (%d wsdl, %d xsd) style=%s%s" % (
+        len(wdocs) + len(xdocs), len(wdocs), len(xdocs), style, " query-string URLs" if qstyle else "")
     return L
 
 
@@ -1556,7 +1631,8 @@ def layouts_for(ck):
             specs = specs[:110]
         for kinds, edges in specs:
             order = rng.choice(["safe", "safe", "target", "target", "shuffle"])
-            out.append(build_graph_layout(rng, kinds, edges, order=order))
+            out.append(build_graph_layout(rng, kinds, edges, order=order,
+                                          urlstyle="query" if rng.random() < 0.25 else "plain"))
     # partitions of generated interfaces
     want = 500 if thorough else 130
     got = 0
